@@ -14,7 +14,9 @@ Matches(st, b) ==
   /\ Len(st) = Len(b)
   /\ \A i \in 1 .. Len(b) :
        /\ st[i].id = i - 1                                   \* add_block numbers blocks in creation order
-       /\ st[i].succ = b[i].succ /\ st[i].pred = b[i].pred /\ ToSet(st[i].f) = b[i].f
+       /\ st[i].succ = b[i].succ                              \* the order of successors is documented (natural flow first)
+       /\ Len(st[i].pred) = Len(b[i].pred) /\ ToSet(st[i].pred) = ToSet(b[i].pred)     \* the order of predecessors is not
+       /\ ToSet(st[i].f) = b[i].f
        /\ st[i].q = Queries(b[i])
        /\ B(9 \in b[i].f /\ b[i].succ = <<>>) \/ st[i].cons = Consecutive(b[i])
 
